@@ -553,9 +553,71 @@ func (a *gsAnalysis) store(env *gsEnv, target ast.Expr, stmt ast.Node, stack []a
 		return
 	}
 	if a.synchronised(stmt, stack) {
+		// the lock must be one that every instance writing this target takes: a lock shared by the
+		// instances, or a lock that belongs to the object written (father.lock for father.SonCount).
+		// A lock reached through the instance's own work item guards nothing that another instance writes.
+		if lk := a.heldLock(stmt, stack); lk != nil {
+			lockRoot := a.info.ObjectOf(rootIdent(lk))
+			targetRoot := a.info.ObjectOf(rootIdent(target))
+			if lockRoot != nil && targetRoot != nil && lockRoot != targetRoot {
+				if lown, _ := env.classify(lk, 0); lown == ownOwned {
+					*out = append(*out, gsWrite{pos: stmt.Pos(), target: target, why: why + "; written under " + types.ExprString(lk) + ".Lock(), a lock that belongs to this instance's own work item, not to the object written: two instances hold different locks"})
+				}
+			}
+		}
 		return
 	}
 	*out = append(*out, gsWrite{pos: stmt.Pos(), target: target, why: why, stack: nil})
+}
+
+// heldLock returns the receiver X of the X.Lock() that makes stmt synchronised (nil for AnnotationsLock
+// or when not found).
+func (a *gsAnalysis) heldLock(stmt ast.Node, stack []ast.Node) ast.Expr {
+	for i := len(stack) - 1; i >= 0; i-- {
+		var list []ast.Stmt
+		switch b := stack[i].(type) {
+		case *ast.BlockStmt:
+			list = b.List
+		case *ast.CaseClause:
+			list = b.Body
+		default:
+			continue
+		}
+		idx := -1
+		for j, st := range list {
+			if stmt.Pos() >= st.Pos() && stmt.End() <= st.End() {
+				idx = j
+			}
+		}
+		if idx < 0 {
+			continue
+		}
+		var held ast.Expr
+		for j := 0; j < idx; j++ {
+			es, ok := list[j].(*ast.ExprStmt)
+			if !ok {
+				continue
+			}
+			call, ok := es.X.(*ast.CallExpr)
+			if !ok {
+				continue
+			}
+			sel, ok := call.Fun.(*ast.SelectorExpr)
+			if !ok {
+				continue
+			}
+			switch sel.Sel.Name {
+			case "Lock":
+				held = sel.X
+			case "Unlock":
+				held = nil
+			}
+		}
+		if held != nil {
+			return held
+		}
+	}
+	return nil
 }
 
 // synchronised: the statement lies between X.Lock() and X.Unlock() in one of
